@@ -10,7 +10,7 @@ import gc
 
 from sim import devices
 from sim.canon import Log, dec_table, canon_rows, canon_row, canon_cell
-from sim.core import outcome, ddmin_lists
+from sim.core import outcome, ddmin_lists, draw_config
 from sim.devices import (SimTable, SimSourceError, SOURCE_ERROR_KINDS,
                          INJECTED_SOURCE_FAILURES)
 from sim.gen import gen_table, FIELDS
@@ -64,6 +64,15 @@ def budget(tier):
 
 
 def gen_case(rng, tier, g):
+    case = _gen_case(rng, tier, g)
+    # the host application's petl.config / logging set-up must not matter
+    cfg = draw_config(rng, 0.12, exclude=('sort_buffersize', 'failonerror'))
+    if cfg:
+        case['config'] = cfg
+    return case
+
+
+def _gen_case(rng, tier, g):
     maxrows = 6 if tier == 'quick' else 9
     if rng.random() < 0.75:
         kind = JOINS[g % len(JOINS)]
